@@ -4,7 +4,7 @@
    statement holds for every compiler whose only channel between instances is the state. *)
 From Coq Require Import List NArith Bool Permutation.
 From RPFT Require Import Base.Sexp Base.PyStr Base.ODict Base.Result Gen.Tables Cell.Cell
-  Index.Args Index.ArgsFacts Index.Bulk Index.BulkFacts Index.BulkExamples.
+  Index.Args Index.ArgsFacts Index.Bulk Index.BulkFacts Index.BulkExamples Index.BulkHistory Index.BulkHistoryFacts.
 Import ListNotations.
 
 (* 1. bulk = concatenation of the singles in data order: replacing a bulk row, anywhere in
@@ -173,6 +173,45 @@ Theorem C12_plan_permutation :
   Permutation rows rows' -> Permutation (@plan D T E reg rows) (plan reg rows').
 Proof. exact (@plan_permutation). Qed.
 Print Assumptions C12_plan_permutation.
+
+(* 3b. histories.  A ContentIndexParser is a long-lived object: one run makes many calls on it (a parse_all_flows pass,
+   a get_node_group call per insert_as_block row).  The model's step function hands the registries back unchanged, so a
+   sequence of calls run through it yields, call by call, the value of the pure function — whatever was called before,
+   in whatever order, however often.  (Strengthening after wave 3: the correspondence runs the same call sequences through
+   the extracted [run_calls] and through ONE real parser.) *)
+Theorem C12_calls_history_free :
+  forall (D T F S E : Type) (compile_one : str -> T -> ctx D -> S -> result E (F * S)) (st0 : S)
+         (reg : registry D T) (cs : list call),
+  run_calls compile_one st0 reg cs = (reg, map (do_call compile_one st0 reg) cs).
+Proof. exact (@run_calls_is_map). Qed.
+Print Assumptions C12_calls_history_free.
+
+Theorem C12_call_outcome_independent_of_history :
+  forall (D T F S E : Type) (compile_one : str -> T -> ctx D -> S -> result E (F * S)) (st0 : S)
+         (reg : registry D T) (h1 h2 : list call) (c : call) (t1 t2 : list call),
+  nth_error (snd (run_calls compile_one st0 reg (h1 ++ c :: t1))) (length h1)
+  = nth_error (snd (run_calls compile_one st0 reg (h2 ++ c :: t2))) (length h2).
+Proof. exact (@call_history_free). Qed.
+Print Assumptions C12_call_outcome_independent_of_history.
+
+(* 3c. an instance inside ANY index equals the instance compiled alone: for every compiler whose flow does not depend
+   on the container state it is handed ("equal up to invented UUIDs"), the flow that an index row naming its data row
+   leaves in the flows dict — after whatever rows, in whatever dict and state — is the flow the row gives in an index of
+   its own.  (With C12_bulk_is_map this covers the instances of bulk rows.) *)
+Theorem C12_instance_alone :
+  forall (D T F S E : Type) (comp : str -> T -> ctx D -> result E F) (next : S -> S)
+         (reg : registry D T) (pre : list cfrow) (r : cfrow) (a a1 a2 : list (str * F) * S) st n t c,
+  names_one r ->
+  @prepare_row D T E reg r (cf_data_row_id r) = Ok (n, t, c) ->
+  paf_rows (blind comp next) reg (pre ++ [r]) a = Ok a1 ->
+  parse_all_flows (blind comp next) reg [r] st = Ok a2 ->
+  oget str_eqb (fst a1) n = oget str_eqb (fst a2) n.
+Proof. exact (@instance_alone). Qed.
+Print Assumptions C12_instance_alone.
+
+Example C12_history_nonvacuous : history_example.
+Proof. exact history_example_holds. Qed.
+Print Assumptions C12_history_nonvacuous.
 
 (* inserted blocks go through the same preparation (own data row, own arguments, empty
    new_name), and see nothing of the inserting flow's context *)
